@@ -214,7 +214,7 @@ theorem RowOK.push {s : DSetData} {rs row : Array Nat} {i : Nat} (h : RowOK s rs
   · intro x h1 h2; rw [getD_push_lt _ _ _ _ (h.lt x h1 h2)]; exact h.per x h1 h2
 
 /-- invariant of `for d in 1..=size` after the chambers `1..n` -/
-structure InnerInv (s : DSetData) (i n : Nat) (st : CollectState) : Prop where
+structure InnerInv (s : DSetData) (i lo n : Nat) (st : CollectState) : Prop where
   seenSize : st.seen.size = s.size + 1
   indexSize : st.index.size = s.dim
   rowSize : ∀ i', i' < s.dim → (st.index.getD i' #[]).size = s.size + 1
@@ -228,15 +228,21 @@ structure InnerInv (s : DSetData) (i n : Nat) (st : CollectState) : Prop where
     st.seen.getD x false = true → st.seen.getD y false = true →
     ((st.index.getD i #[]).getD x 0 = (st.index.getD i #[]).getD y 0 ↔ Orb2 s i (i + 1) x y)
   prev : ∀ i', i' < i → RowOK s st.rs (st.index.getD i' #[]) i'
+  loLe : lo ≤ st.rs.size
+  geLo : ∀ x, 1 ≤ x → x ≤ s.size → st.seen.getD x false = true → lo ≤ (st.index.getD i #[]).getD x 0
+  prevLt : ∀ i', i' < i → ∀ x, 1 ≤ x → x ≤ s.size → (st.index.getD i' #[]).getD x 0 < lo
+  sep : ∀ i' i'', i' < i'' → i'' < i → ∀ x y, 1 ≤ x → x ≤ s.size → 1 ≤ y → y ≤ s.size →
+    (st.index.getD i' #[]).getD x 0 < (st.index.getD i'' #[]).getD y 0
 
-theorem InnerInv.step {s : DSetData} (h : ValidSet s) {i : Nat} (hi : i + 1 ≤ s.dim) {n : Nat} (hn : n < s.size)
-    {st : CollectState} (inv : InnerInv s i n st) : InnerInv s i (n + 1) (collectStep s i st n) := by
+theorem InnerInv.step {s : DSetData} (h : ValidSet s) {i : Nat} (hi : i + 1 ≤ s.dim) {lo n : Nat} (hn : n < s.size)
+    {st : CollectState} (inv : InnerInv s i lo n st) : InnerInv s i lo (n + 1) (collectStep s i st n) := by
   have hi0 : i ≤ s.dim := by omega
   unfold collectStep
   simp only
   by_cases hseen : st.seen.getD (n + 1) false = true
   · rw [if_pos hseen]
-    refine ⟨inv.seenSize, inv.indexSize, inv.rowSize, ?_, inv.closed, inv.lt, inv.per, inv.iff, inv.prev⟩
+    refine ⟨inv.seenSize, inv.indexSize, inv.rowSize, ?_, inv.closed, inv.lt, inv.per, inv.iff, inv.prev,
+      inv.loLe, inv.geLo, inv.prevLt, inv.sep⟩
     intro x h1 h2 h3
     by_cases hx : x = n + 1
     · rw [hx]; exact hseen
@@ -269,7 +275,7 @@ theorem InnerInv.step {s : DSetData} (h : ValidSet s) {i : Nat} (hi : i + 1 ≤ 
       · rw [(hnm x hmx).2]; exact hx
     have hold : ∀ x, ¬ Marked s i (n + 1) 0 k x → seen'.getD x false = true → st.seen.getD x false = true := by
       intro x hmx hx; rw [(hnm x hmx).2] at hx; exact hx
-    refine ⟨hs2, by simp [inv.indexSize], ?_, ?_, ?_, ?_, ?_, ?_, ?_⟩
+    refine ⟨hs2, by simp [inv.indexSize], ?_, ?_, ?_, ?_, ?_, ?_, ?_, ?_, ?_, ?_, ?_⟩
     · intro i' hi'
       by_cases he : i' = i
       · subst he; show ((st.index.setIfInBounds i' ix').getD i' #[]).size = _; rw [hrow]; exact hs1
@@ -323,10 +329,24 @@ theorem InnerInv.step {s : DSetData} (h : ValidSet s) {i : Nat} (hi : i + 1 ≤ 
       show RowOK s (st.rs.push k) ((st.index.setIfInBounds i ix').getD i' #[]) i'
       rw [hrow' i' (by omega)]
       exact (inv.prev i' hi').push k
+    · show lo ≤ (st.rs.push k).size
+      rw [Array.size_push]; exact Nat.le_succ_of_le inv.loLe
+    · intro x h1 h2 hsx
+      show lo ≤ ((st.index.setIfInBounds i ix').getD i #[]).getD x 0
+      rw [hrow]
+      by_cases hmx : Marked s i (n + 1) 0 k x
+      · rw [(hm x hmx).1]; exact inv.loLe
+      · rw [(hnm x hmx).1]; exact inv.geLo x h1 h2 (hold x hmx hsx)
+    · intro i' hi' x h1 h2
+      show ((st.index.setIfInBounds i ix').getD i' #[]).getD x 0 < lo
+      rw [hrow' i' (by omega)]; exact inv.prevLt i' hi' x h1 h2
+    · intro i' i'' h12 h2i x y hx1 hx2 hy1 hy2
+      show ((st.index.setIfInBounds i ix').getD i' #[]).getD x 0 < ((st.index.setIfInBounds i ix').getD i'' #[]).getD y 0
+      rw [hrow' i' (by omega), hrow' i'' (by omega)]; exact inv.sep i' i'' h12 h2i x y hx1 hx2 hy1 hy2
 
-theorem InnerInv.fold {s : DSetData} (h : ValidSet s) {i : Nat} (hi : i + 1 ≤ s.dim)
-    {st : CollectState} (inv : InnerInv s i 0 st) :
-    ∀ n, n ≤ s.size → InnerInv s i n ((List.range n).foldl (collectStep s i) st)
+theorem InnerInv.fold {s : DSetData} (h : ValidSet s) {i : Nat} (hi : i + 1 ≤ s.dim) {lo : Nat}
+    {st : CollectState} (inv : InnerInv s i lo 0 st) :
+    ∀ n, n ≤ s.size → InnerInv s i lo n ((List.range n).foldl (collectStep s i) st)
   | 0, _ => inv
   | n + 1, hn => by
     rw [List.range_succ, List.foldl_append]
@@ -337,35 +357,45 @@ structure OuterInv (s : DSetData) (i : Nat) (st : CollectState) : Prop where
   indexSize : st.index.size = s.dim
   rowSize : ∀ i', i' < s.dim → (st.index.getD i' #[]).size = s.size + 1
   prev : ∀ i', i' < i → RowOK s st.rs (st.index.getD i' #[]) i'
+  sep : ∀ i' i'', i' < i'' → i'' < i → ∀ x y, 1 ≤ x → x ≤ s.size → 1 ≤ y → y ≤ s.size →
+    (st.index.getD i' #[]).getD x 0 < (st.index.getD i'' #[]).getD y 0
 
 theorem OuterInv.step {s : DSetData} (h : ValidSet s) {i : Nat} (hi : i + 1 ≤ s.dim)
     {st : CollectState} (inv : OuterInv s i st) : OuterInv s (i + 1) (collectRow s st i) := by
-  have h0 : InnerInv s i 0 { st with seen := Array.replicate (s.size + 1) false } := by
+  have h0 : InnerInv s i st.rs.size 0 { st with seen := Array.replicate (s.size + 1) false } := by
     have hf : ∀ x, (Array.replicate (s.size + 1) false).getD x false = true → False := by
       intro x hx; rw [getD_replicate] at hx; cases hx
-    refine ⟨by simp, inv.indexSize, inv.rowSize, ?_, ?_, ?_, ?_, ?_, inv.prev⟩
+    refine ⟨by simp, inv.indexSize, inv.rowSize, ?_, ?_, ?_, ?_, ?_, inv.prev, Nat.le_refl _, ?_, ?_, inv.sep⟩
     · intro x h1 h2; omega
     · intro x y _ _ hx; exact (hf x hx).elim
     · intro x _ _ hx; exact (hf x hx).elim
     · intro x _ _ hx; exact (hf x hx).elim
     · intro x y _ _ _ _ hx; exact (hf x hx).elim
+    · intro x _ _ hx; exact (hf x hx).elim
+    · intro i' hi' x h1 h2; exact (inv.prev i' hi').lt x h1 h2
   have hfin := InnerInv.fold h hi h0 s.size (Nat.le_refl _)
-  refine ⟨hfin.indexSize, hfin.rowSize, ?_⟩
-  intro i' hi'
-  by_cases he : i' = i
-  · subst he
-    exact ⟨hfin.rowSize i' (by omega),
-      fun x h1 h2 => hfin.lt x h1 h2 (hfin.done x h1 h2 h2),
-      fun x h1 h2 => hfin.per x h1 h2 (hfin.done x h1 h2 h2),
-      fun x y hx1 hx2 hy1 hy2 => hfin.iff x y hx1 hx2 hy1 hy2 (hfin.done x hx1 hx2 hx2) (hfin.done y hy1 hy2 hy2)⟩
-  · exact hfin.prev i' (by omega)
+  refine ⟨hfin.indexSize, hfin.rowSize, ?_, ?_⟩
+  · intro i' hi'
+    by_cases he : i' = i
+    · subst he
+      exact ⟨hfin.rowSize i' (by omega),
+        fun x h1 h2 => hfin.lt x h1 h2 (hfin.done x h1 h2 h2),
+        fun x h1 h2 => hfin.per x h1 h2 (hfin.done x h1 h2 h2),
+        fun x y hx1 hx2 hy1 hy2 => hfin.iff x y hx1 hx2 hy1 hy2 (hfin.done x hx1 hx2 hx2) (hfin.done y hy1 hy2 hy2)⟩
+    · exact hfin.prev i' (by omega)
+  · intro i' i'' h12 h2i x y hx1 hx2 hy1 hy2
+    by_cases he : i'' = i
+    · subst he
+      exact Nat.lt_of_lt_of_le (hfin.prevLt i' h12 x hx1 hx2) (hfin.geLo y hy1 hy2 (hfin.done y hy1 hy2 hy2))
+    · exact hfin.sep i' i'' h12 (by omega) x y hx1 hx2 hy1 hy2
 
 theorem OuterInv.fold {s : DSetData} (h : ValidSet s) :
     ∀ n, n ≤ s.dim → OuterInv s n ((List.range n).foldl (collectRow s) (collectInit s))
   | 0, _ => by
-    refine ⟨by simp [collectInit], ?_, fun i' hi' => by omega⟩
+    refine ⟨by simp [collectInit], ?_, fun i' hi' => by omega, fun i' i'' _ hi'' => by omega⟩
     intro i' hi'
-    simp only [collectInit, Array.getD_eq_getD_getElem?, Array.getElem?_replicate, if_pos hi']
+    show ((Array.replicate s.dim (Array.replicate (s.size + 1) 0)).getD i' #[]).size = s.size + 1
+    rw [Array.getD_eq_getD_getElem?, Array.getElem?_replicate, if_pos hi']
     simp
   | n + 1, hn => by
     rw [List.range_succ, List.foldl_append]
@@ -378,5 +408,13 @@ theorem collectOrbits_rows {s : DSetData} (h : ValidSet s) :
   have := OuterInv.fold h s.dim (Nat.le_refl _)
   rw [collectOrbits_eq]
   exact ⟨this.indexSize, this.prev⟩
+
+/-- orbit numbers of different rows are different: row `i'` is numbered before row `i` -/
+theorem collectOrbits_rows_lt {s : DSetData} (h : ValidSet s) {i' i : Nat} (h1 : i' < i) (h2 : i < s.dim)
+    {x y : Nat} (hx1 : 1 ≤ x) (hx2 : x ≤ s.size) (hy1 : 1 ≤ y) (hy2 : y ≤ s.size) :
+    ((collectOrbits s).index.getD i' #[]).getD x 0 < ((collectOrbits s).index.getD i #[]).getD y 0 := by
+  have := OuterInv.fold h s.dim (Nat.le_refl _)
+  rw [collectOrbits_eq]
+  exact this.sep i' i h1 h2 x y hx1 hx2 hy1 hy2
 
 end DSymVerif.DS
